@@ -450,7 +450,7 @@ static U32V ascii_prefix(unsigned n)
 
 // ---- position sweep: what a scanner does with a unit must not depend on how much well-formed text it has already
 // skipped (block-wise pre-scans, unrolled loops, counters, internal buffers of 16 / 32 / 64 / 256 units)
-inline void add_position_sweep(vf::Plan &plan, unsigned K, RunOpts ro)
+inline void add_position_sweep(vf::Plan &plan, unsigned K, RunOpts ro, unsigned naligns = 0)
 {
     struct Pat {
         ref::Enc enc;
@@ -485,6 +485,30 @@ inline void add_position_sweep(vf::Plan &plan, unsigned K, RunOpts ro)
         for (unsigned k = 0; k < suf; ++k) s.push_back('z');
         return s;
     };
+    if (naligns) {
+        // the same inputs with the source array starting 1..naligns units past a 16-byte boundary (pointer + size routes see the
+        // caller's alignment; a word-at-a-time path chosen by it must behave like the plain one)
+        RunOpts rp = ro;
+        rp.primary_only = true;
+        plan.stage(strf("position x alignment: the position sweep to %u units with the source array %u different distances past a 16-byte boundary, "
+                        "pointer+size routes", K, naligns),
+                   (uint64_t)(K + 1) * 3 * 2 * PATS.size() * naligns,
+                   [=](uint64_t i, Ctx &c) {
+                       unsigned al = 1 + (unsigned)vf::take(i, naligns);
+                       ref::Enc enc;
+                       U32V s = mk(i, K, enc);
+                       placed().align = (int)al;
+                       run_case(c, enc, s, rp);
+                       placed().align = -1;
+                   },
+                   [=](uint64_t i) {
+                       unsigned al = 1 + (unsigned)vf::take(i, naligns);
+                       ref::Enc enc;
+                       U32V s = mk(i, K, enc);
+                       return show_units(enc, s) + strf(" (source %u units past a 16-byte boundary)", al);
+                   });
+        return;
+    }
     plan.stage(strf("position sweep: %zu well-formed / malformed units behind 0..%u units of filler (ASCII, U+00E9), 0/1/7 units after, all routes",
                     PATS.size(), K),
                (uint64_t)(K + 1) * 3 * 2 * PATS.size(),
